@@ -275,6 +275,52 @@ return p
 """
 
 
+GENV_CALL = r"""
+local p = {}
+local function sees_host(x)
+  if type(x) ~= "table" then return false end
+  local ok, r = pcall(function()
+    return (x.io ~= nil and x.io.open ~= nil) or (x.os ~= nil and x.os.execute ~= nil) or x.loadstring ~= nil or x.python ~= nil or x.getfenv ~= nil or x.dofile ~= nil
+  end)
+  return ok and r and true or false
+end
+local function bad(c)
+  if sees_host(c) then return true end
+  if type(c) == "table" then
+    local mt = getmetatable(c)
+    if type(mt) == "table" and sees_host(rawget(mt, "__index")) then return true end
+  end
+  return false
+end
+function p.call(frame)
+  -- every function stored under the given field name anywhere in the environment (depth <= 3) is called with a fresh table;
+  -- afterwards neither that table nor the result may give access to a host library
+  local want = frame.args[1]
+  local seen, hits, called = {}, {}, 0
+  local function walk(t, depth, path)
+    if seen[t] or depth > 3 then return end
+    seen[t] = true
+    for k, v in pairs(t) do
+      if type(v) == "function" and k == want then
+        local arg = {}
+        local ok, r = pcall(v, arg)
+        called = called + 1
+        if bad(arg) or bad(r) then hits[#hits + 1] = path .. "." .. tostring(k) end
+      elseif type(v) == "table" then
+        walk(v, depth + 1, path .. "." .. tostring(k))
+      end
+    end
+  end
+  local roots = {package = package, mw = mw, string = string, table = table, os = os, math = math}
+  if type(_G) == "table" then roots._G = _G end
+  for name, t in pairs(roots) do if type(t) == "table" then walk(t, 0, name) end end
+  if #hits > 0 then return "true " .. table.concat(hits, ",") end
+  return "false called=" .. tostring(called)
+end
+return p
+"""
+
+
 def host_globals_not_passed(rep: C.Report) -> None:
     """Ob6: phase 1 of the sandbox bootstrap runs in the HOST Lua state, where `_G` is the unrestricted global table.  The code
     there may mention `_G` only as a key (`_G = true` in the name lists, env["_G"]) and in `setmetatable(_G, nil)`; any other
@@ -324,11 +370,34 @@ def host_globals_not_passed(rep: C.Report) -> None:
             except Exception as e:  # noqa: BLE001
                 res[fn] = f"EXC {type(e).__name__}"
         close(w)
+        # the function of the bootstrap that uses _G as a value, if it has a name: find it in the sandbox environment under
+        # that field name and call it
+        for ln, kind in uses:
+            if kind != "value":
+                continue
+            field = None
+            for prev in reversed(code.splitlines()[:ln]):
+                m2 = re.search(r"function\s+([A-Za-z_][\w.:]*)\s*\(", prev) or re.search(r"([A-Za-z_][\w.]*)\s*=\s*function\s*\(", prev)
+                if m2:
+                    field = re.split(r"[.:]", m2.group(1))[-1]
+                    break
+            if not field:
+                continue
+            w = new_ctx(modules={"vfcall": GENV_CALL})
+            w.start_page("Tcall")
+            try:
+                res["call:" + field] = w.expand("{{#invoke:vfcall|call|%s}}" % field)
+            except Exception as e:  # noqa: BLE001
+                res["call:" + field] = f"EXC {type(e).__name__}"
+            close(w)
         ob.samples.append({"replay": res})
         leaks = {k: v for k, v in res.items() if "true" in v}
         if leaks:
             k, v = sorted(leaks.items())[0]
-            v_ = rep.violation(f"expand('{{{{#invoke:vfg|{k}}}}}') with a data module that reports whether io / os.execute / loadstring / python / getfenv are visible", f"a module loaded by the sandbox sees host libraries (io, os.execute, loadstring, python, getfenv = {v}); _sandbox_phase1.lua:{hit[0]} uses the host's _G as a value", {"line": hit[0]})
+            if k.startswith("call:"):
+                v_ = rep.violation(f"expand('{{{{#invoke:vfcall|call|{k[5:]}}}}}'): a module calls the environment's function(s) named {k[5:]!r} with a fresh table", f"afterwards the table (or its metatable's __index) gives access to host libraries - io.open / os.execute / loadstring / python / getfenv - through {v[5:]}; _sandbox_phase1.lua uses the host's _G as a value inside that function", {"field": k[5:]})
+            else:
+                v_ = rep.violation(f"expand('{{{{#invoke:vfg|{k}}}}}') with a data module that reports whether io / os.execute / loadstring / python / getfenv are visible", f"a module loaded by the sandbox sees host libraries (io, os.execute, loadstring, python, getfenv = {v}); _sandbox_phase1.lua:{hit[0]} uses the host's _G as a value", {"line": hit[0]})
             ob.verdict = C.VIOLATED if v_.known is None else C.KNOWN
             ob.confirmed_conditions = 1
         else:
